@@ -188,9 +188,12 @@ def hand_abstract_schema():
     implementers sharing a composite field, a union, the same field name + abstract type on several parents with
     DIFFERENT kinds of type resolver, non-null items and fields."""
     types = OrderedDict()
+    types["Odd"] = {"kind": "SCALAR"}
     types["Info"] = {"kind": "OBJECT", "interfaces": [], "fields": [
         {"name": "x", "type": N("Int"), "args": []}, {"name": "y", "type": N("Int"), "args": []},
-        {"name": "deep", "type": N("Info"), "args": []}, {"name": "must", "type": NN(N("Int")), "args": []}]}
+        {"name": "deep", "type": N("Info"), "args": []}, {"name": "must", "type": NN(N("Int")), "args": []},
+        {"name": "odd", "type": NN(N("Odd")), "args": []}, {"name": "odds", "type": L(NN(N("Odd"))), "args": []},
+        {"name": "oddMaybe", "type": N("Odd"), "args": []}]}
     named = [{"name": "name", "type": N("String"), "args": []}, {"name": "info", "type": N("Info"), "args": []},
              {"name": "sh", "type": L(N("Named")), "args": []}]
     types["Named"] = {"kind": "INTERFACE", "fields": [dict(f) for f in named]}
@@ -202,10 +205,12 @@ def hand_abstract_schema():
     types["Query"] = {"kind": "OBJECT", "interfaces": [], "fields": [
         {"name": "items", "type": L(N("Named")), "args": []}, {"name": "one", "type": N("Named"), "args": []},
         {"name": "ab", "type": L(NN(N("AB"))), "args": []}, {"name": "sh", "type": L(N("Named")), "args": []},
-        {"name": "plain", "type": N("Info"), "args": []}, {"name": "strictItems", "type": L(NN(N("Named"))), "args": []}]}
+        {"name": "plain", "type": N("Info"), "args": []}, {"name": "strictItems", "type": L(NN(N("Named"))), "args": []},
+        {"name": "oddRoot", "type": NN(N("Odd")), "args": []}]}
     s = {"types": types, "query": "Query", "mutation": None, "subscription": None}
     s["resolvers"] = {("Query", f["name"]) for f in types["Query"]["fields"]} | {("A", "sh"), ("B", "sh"), ("B", "info"),
-                                                                               ("Info", "deep")}
+                                                                               ("Info", "deep"), ("Info", "odd"), ("Info", "odds"),
+                                                                               ("Info", "oddMaybe")}
     s["type_resolvers"] = {"AB"}
     s["field_type_resolvers"] = {("A", "sh"), ("Query", "sh")}
     return s
@@ -225,7 +230,12 @@ HAND_ABSTRACT_QUERIES = [
     ("{ ab { __typename ... on A { a sh { __typename } } ... on B { b strict { x must } } } }", {}),
     ("{ one { ...G ...G name } } fragment G on Named { name info { x ...H } } fragment H on Info { y }", {}),
     ("{ p: plain { x } p: plain { y } plain { k: x k2: x deep { must } } }", {}),
+    # a custom scalar whose result coercion can yield null for a non-null value (99): at T!, in [T!], at a nullable place
+    ("{ plain { x odd } items { info { odds oddMaybe } } one { name info { odd y } } }", {}),
+    ("{ plain { deep { odds odd } oddMaybe } }", {}),
 ]
+# the last two alone, for checks that must not null the whole data
+HAND_ROOT_ODD = ("{ oddRoot plain { x } }", {})
 
 
 def hand_abstract_cases(rng, n_seeds=3):
@@ -495,7 +505,21 @@ class Oracle:
             if rng.random() < self.adv:
                 return rng.choice([1, "x", {"a": 1}, Opaque("tuple"), 0, "", False, Opaque("set"), {}])
             n = rng.randrange(0, 3 if depth > 1 else 4)
-            return [self.value(rng, t[1], depth + 1, False) for _ in range(n)]
+            items = [self.value(rng, t[1], depth + 1, False) for _ in range(n)]
+            # lists of an abstract type: more often than not at least two items of DIFFERENT runtime types
+            it = t[1][1] if t[1][0] == "nonnull" else t[1]
+            if it[0] == "named" and self.s["types"].get(it[1], {}).get("kind") in ("INTERFACE", "UNION"):
+                poss = possible_types(self.s, it[1])
+                if len(poss) >= 2 and depth <= 2 and rng.random() < 0.7:
+                    while len(items) < 2:
+                        items.append(self.object(rng, rng.choice(poss), depth + 1))
+                    names = [x.get("_typename") if isinstance(x, dict) else getattr(x, "_typename", None) for x in items]
+                    if len({n_ for n_ in names if n_ in poss}) < 2:
+                        first = next((n_ for n_ in names if n_ in poss), poss[0])
+                        other = rng.choice([p_ for p_ in poss if p_ != first])
+                        items[rng.randrange(len(items))] = self.object(rng, first, depth + 1)
+                        items.append(self.object(rng, other, depth + 1))
+            return items
         name = t[1]
         d = self.s["types"].get(name, {"kind": "SCALAR"})
         kind = d["kind"]
@@ -599,6 +623,19 @@ class Oracle:
                 return ("ret", 7)
             if kind == "bad_typename":
                 return ("ret", {"_typename": "Nope", "__tr": "Nope"})
+            if kind == "coerce_null":
+                # 99 is the value the custom scalar Odd serialises as null: a null produced DURING result coercion
+                # (for other types just another value, possibly an unserialisable one)
+                v = Oracle(self.s, self.seed, 0.0, 0.0).value(rng, ftype, 0)
+
+                def plant(x, t):
+                    while t[0] == "nonnull":
+                        t = t[1]
+                    if t[0] == "list" and isinstance(x, list) and x:
+                        i = rng.randrange(len(x))
+                        return x[:i] + [plant(x[i], t[1])] + x[i + 1:]
+                    return 99
+                return ("ret", plant(v, ftype))
             if kind in ("exc_item", "bad_type_item", "null_item", "garbage_item"):
                 # the value the resolver would return, with an offending object as one list element
                 v = Oracle(self.s, self.seed, 0.0, 0.0).value(rng, ftype, 0)
@@ -787,11 +824,15 @@ async def build_engine(s, schema_name, oracle_ref, rec, cfg=None, sdl=None):
 def path_coq(path):
     if path is None:
         return "None"
+    if not isinstance(path, (list, tuple)):
+        # not a response path at all (the envelope checks report it): keep the case files printable
+        return "(Some [KName %s])" % coq_string("<malformed path %s>" % type(path).__name__)
     return "(Some %s)" % plain_path_coq(path)
 
 
 def plain_path_coq(path):
-    return coq_list([("(KName %s)" % coq_string(p)) if isinstance(p, str) else ("(KIdx %d)" % p) for p in path])
+    return coq_list([("(KName %s)" % coq_string(p)) if isinstance(p, str) else ("(KIdx %d)" % p) if isinstance(p, int)
+                     else "(KName %s)" % coq_string("<malformed key %s>" % type(p).__name__) for p in path])
 
 
 def uret_coq(ret):
